@@ -25,9 +25,14 @@
      5  a program that is valid by construction was rejected by resolution
                                                                     (property oracle)
      7  in the observed resolved AST an include is marked used although nothing
-        refers through it, or not marked although something does    (property oracle) *)
+        refers through it, or not marked although something does    (property oracle)
+     8  the decidable specification says the program resolves ([resolvable], theorem
+        resolve_complete) but the implementation rejected it         (property oracle)
+    11  a program that is valid by construction (generator with intent) was accepted by
+        the implementation although [resolvable] says no: the decidable specification
+        is stricter than the code on a realistic program           (correspondence) *)
 From Coq Require Import List Bool Arith NArith ZArith.
-From Verif Require Import Base.Bytes Idl.Ast Idl.AstUtil Idl.Resolve.
+From Verif Require Import Base.Bytes Idl.Ast Idl.AstUtil Idl.Resolve Idl.ResolveSpec Idl.ResolvableSpec Idl.ResolvableConst.
 Import ListNotations.
 
 Inductive obs :=
@@ -168,13 +173,26 @@ Definition used_oracle (o : obs) : list N :=
   | _ => []
   end.
 
+(* ---- the decidable specification of "resolves", evaluated on the input *)
+
+Definition resolvable_oracle (c : case) : list N :=
+  match c_obs c with
+  | ObsErr _ => if resolvable (c_input c) then [8%N] else []
+  | ObsOk _ => match c_intent c with
+               | Some _ => if resolvable (c_input c) then [] else [11%N]
+               | None => []
+               end
+  | ObsRejected => []
+  end.
+
 Definition check (c : case) : list N :=
   corr (c_input c) (c_obs c) ++ corr_deref c ++
   flat_map' corr_perm (c_perms c) ++
   intent_oracle c ++
   flat_map' (perm_oracle (c_obs c)) (c_perms c) ++
   expect_oracle c ++
-  used_oracle (c_obs c).
+  used_oracle (c_obs c) ++
+  resolvable_oracle c.
 
 Definition dedup (l : list N) : list N :=
   fold_right (fun x acc => if existsb (N.eqb x) acc then acc else x :: acc) [] l.
